@@ -45,6 +45,10 @@ class Pool:
             return
         self.singles = rng.sample(singles, min(n_single, len(singles)))
         self.fasts = rng.sample(fasts, min(n_fast, len(fasts)))
+        # definitions of PGN numbers that the code under test mentions literally travel as well (it may treat them specially)
+        named = [d for d in ok if d.pgn in set(gen.harvested_in(0, 1 << 18)) and d not in self.singles and d not in self.fasts]
+        for d in rng.sample(named, min(len(named), 3)):
+            (self.singles if d in singles else self.fasts if d in fasts else []).append(d)
         # sibling definitions of the same PGN number travel together: one long-lived decoder must keep them apart
         for lst, src in ((self.singles, singles), (self.fasts, fasts)):
             extra = []
